@@ -147,7 +147,7 @@ class C12(Prop):
             'API name; every call has a bare API function as callee; no parameter / loop / assignment target is an API '
             'name, True, False, None or __builtins__; constants are str/int/bool/None; no attribute access, import, '
             'global, class, lambda, nested def, f-string, subscript, comprehension, star-args, with/try/raise/del; '
-            '(2) a canary callable placed in the engine context is never called while loading the script and '
+            '(2) the script is loaded into a new engine or (one case in three) into one that was used and cleared before; the loaded functions see no Python builtins (their globals carry an empty __builtins__); a canary callable placed in the engine context is never called while loading the script and '
             'enumerating every defined predicate; (3) after loading, the context has no new key other than name_arity of '
             'the clause heads; (4) once per run, exhaustively: for every name in the engine context, every attribute of '
             'the engine object, Python builtins and look-alikes x arities 0-3, a run-time query yields no answer, raises '
@@ -297,6 +297,14 @@ class C12(Prop):
             return iter(())
         yp = impl.BudgetYP(400)
         impl.WORK['limit'] = 400000
+        used_before = len(text) % 3 == 0
+        if used_before:
+            # not a new engine: one that has loaded a program, answered a query and was cleared
+            yp.load_script_from_string('def old_1(arg1):\n  for l1 in unify(arg1, atom("a")):\n    yield False\n')
+            for _ in yp.query('old', [yp.variable()]):
+                pass
+            yp.clear()
+            yp._n = 0
         yp.eval_context['canary'] = canary
         before = set(yp.eval_context)
         try:
@@ -312,6 +320,19 @@ class C12(Prop):
         if added != sorted(set(defs)):
             detail['keys_added'] = added
             return FAIL('context-keys-differ-from-definitions', detail)
+        # what the loaded functions can see: the names of the engine context (the API, the script's own definitions) and
+        # no Python builtins - a context without a '__builtins__' entry is given the real ones by exec
+        for name in defs:
+            fn = yp.eval_context.get(name)
+            g = getattr(fn, '__globals__', None)
+            if g is None:
+                continue
+            b = g.get('__builtins__', None)
+            visible = sorted(b if isinstance(b, dict) else dir(b)) if '__builtins__' in g else ['<all of builtins: no __builtins__ entry>']
+            if visible:
+                detail['builtins_visible'] = visible[:8]
+                detail['engine_used_and_cleared_before'] = used_before
+                return FAIL('loaded-code-sees-python-builtins', detail)
         try:
             exp = None
             if recog.in_language(text):
